@@ -1,5 +1,6 @@
 import OdcGeo.Model.C02
 import OdcGeo.Model.C02Glue
+import OdcGeo.Model.C02Seq
 namespace OdcGeo.C02.Drv
 open OdcGeo OdcGeo.IO OdcGeo.C02 OdcGeo.C17
 
@@ -198,6 +199,29 @@ def runGlue (op : String) (g : GeoBox) (args : List String) : Option String :=
   | "gextk", [k] => do
     let k ← parseKind? k
     pure (fmtBool (geographicExtentIsExtent k))
+  | "qr2", [n, pad, off] => do
+    let n ← parseNat? n
+    let pad ← parseOpt? parseRat? pad
+    let off ← parseInt? off
+    pure (fmtList fmtPtS (qr2sample C14.fl64 (fun x => x) g n pad off))
+  | "fplan", [n, m, dst, b, np] => do
+    let n ← parseRat? n; let m ← parseRat? m; let dst ← parseNat? dst
+    let b ← parseRat? b; let np ← parseInt? np
+    pure (fmtRes (fun (pl : FootprintPlan) => s!"{fmtOpt fmtRat pl.bufferDist} {fmtRat pl.step} {fmtBool pl.sameCrs}")
+      (footprintPlan g n m dst b np))
+  | "cunits", [k, uy, ux] => do
+    let k ← parseKind? k
+    let u := coordUnits k (uy, ux)
+    pure s!"{u.1} {u.2}"
+  | "giO", [len, sq, sl] => do
+    let len ← parseOpt? parseNat? len
+    let sq ← parseBool? sq; let sl ← parseBool? sl
+    pure (match getitemOther ⟨len, sq, sl⟩ with
+      | .ok () => "ok"
+      | .error .typeError => "ERR:TypeError"
+      | .error .valueError => "ERR:ValueError"
+      | .error .attributeError => "ERR:AttributeError"
+      | .error .notImplemented => "ERR:NotImplemented")
   | "gcpres", [B, n, m] => do
     let B ← parseAff? B; let n ← parseRat? n; let m ← parseRat? m
     pure (fmtRes fmtPt (gcpResolution B g n m))
